@@ -76,8 +76,8 @@ def _pilot_state_progress(pid, current, target):
 
     if current in FINAL and target != current:
         if target in FINAL:
-            raise ValueError('invalid transition for %s: %s -> %s'
-                            % (pid, current, target))
+            # final states are final: discard the update (see docstring)
+            return [current, []]
 
     cur = _pilot_state_values[current]
     tgt = _pilot_state_values[target]
